@@ -1796,12 +1796,15 @@ feature! {
                 return Interest::always();
             }
 
-            // Return highest level of interest.
-            let mut interest = Interest::never();
+            // `enabled` asks *all* of the subscribers in the `Vec`, so the
+            // combined interest must agree with that: if any subscriber will
+            // never enable the callsite, it is never enabled; it is always
+            // enabled only if every subscriber always enables it. Every
+            // subscriber is asked, so that each can register the callsite.
+            let mut interest = Interest::always();
             for s in self {
                 let new_interest = s.register_callsite(metadata);
-                if (interest.is_sometimes() && new_interest.is_always())
-                    || (interest.is_never() && !new_interest.is_never())
+                if new_interest.is_never() || (new_interest.is_sometimes() && interest.is_always())
                 {
                     interest = new_interest;
                 }
